@@ -153,7 +153,7 @@ def combine(ctx, modes=("or", "and", "and"), N=2, pre=()):
     ctx.prove("state handed back unchanged", x == ["X"])
 
 
-def ttp(ctx, nc=2, pre=()):
+def ttp(ctx, nc=2, pre=(), fresh=False):
     """TTPCalculator._getStopTime: model reset (conditions with it) before the run, temperature set, one time per condition (-1 if unmet)"""
     ph, el = ("P1",), ("A",)
     m = PrecipitateModel(phases=list(ph), elements=list(el))
@@ -178,7 +178,8 @@ def ttp(ctx, nc=2, pre=()):
             if met[i]:
                 c._isSatisfied = True; c._satisfiedTime = ts[i]
     m.solve = fake_solve
-    m.pData.n = 7     # history from the previous temperature
+    if not fresh:
+        m.pData.n = 7     # history from the previous temperature (fresh: a model that was never solved; the condition objects come from elsewhere)
     vals = calc._getStopTime(T)
     ctx.prove("solve called once with the maximum time", len(log) == 1 and log[0][1] == 10.0)
     ctx.prove("conditions were reset before the run", all(s is False for s in log[0][2]) and all(float(x) == -1 for x in log[0][3]))
@@ -234,7 +235,7 @@ HARNESSES = [
                               {"modes": ["and", "and"], "pre": ["or", "or"]}, {"modes": ["or", "and"], "pre": ["and"]}],
                     "thorough": [{"modes": list(mo)} for k in (1, 2, 3, 4) for mo in __import__("itertools").product(("or", "and"), repeat=k)]}),
     Harness("C19.ttp", ttp, functions=_F, assumptions=_A, stubs=["model.solve replaced by a stub that marks conditions met according to symbolic bits"],
-            params={"quick": [{"nc": 1}, {"nc": 2}, {"nc": 2, "pre": ["or"]}], "thorough": [{"nc": 3}, {"nc": 3, "pre": ["or", "and"]}]}),
+            params={"quick": [{"nc": 1}, {"nc": 2}, {"nc": 2, "pre": ["or"]}, {"nc": 2, "fresh": True}], "thorough": [{"nc": 3}, {"nc": 3, "pre": ["or", "and"]}, {"nc": 3, "fresh": True}]}),
     Harness("C19.ttp_table", ttp_table, functions=[TTPCalculator.calculateTTP], assumptions=["crossing times > 0 arbitrary reals (fractions of a second included)"],
             stubs=["TTPCalculator._getStopTime replaced by a stub returning symbolic crossing times / -1 per symbolic bit (the real one is the subject of C19.ttp)"],
             params={"quick": [{"nc": 2, "nT": 2}], "thorough": [{"nc": 3, "nT": 3}]}),
